@@ -419,8 +419,15 @@ def run(repo, rep, tier):
                   'non-negative')
     r5.functions.add(post.fq)
     from ..cfg import stmt_facts as _sf
-    pf = _sf(post.node)
-    for st, (fs, _) in pf.items():
+    for rf in h.methods.values():
+      post5 = rf
+      if not any(isinstance(c_, ast.Call) and
+                 dotted(c_.func) == 'self.rfile.read'
+                 for c_ in walk_no_nested(rf.node)):
+          continue
+      r5.functions.add(rf.fq)
+      pf = _sf(rf.node)
+      for st, (fs, _) in pf.items():
         for c in ast.walk(st) if not isinstance(
                 st, (ast.If, ast.For, ast.While, ast.Try, ast.With)) else []:
             if isinstance(c, ast.Call) and \
@@ -429,7 +436,7 @@ def run(repo, rep, tier):
                 a = c.args[0]
                 lower = None
                 from ..cfg import flag_facts
-                fs = list(fs) + flag_facts(post.node, st, fs)
+                fs = list(fs) + flag_facts(rf.node, st, fs)
                 for t, pol in fs:
                     if isinstance(t, ast.Compare) and len(t.ops) == 1 and \
                             norm(t.left) == norm(a) and \
@@ -452,10 +459,10 @@ def run(repo, rep, tier):
                             lower = max(lower, k + 1) \
                                 if lower is not None else k + 1
                 ok = lower is not None and lower >= 0
-                r5.ob(ok, 'do_POST:' + norm(c),
+                r5.ob(ok, rf.name + ':' + norm(c),
                       {'read': norm(c), 'proven_lower_bound': lower})
                 if not ok:
-                    rep.finding(r5, post.qualname, norm(c), 'unbounded-read',
+                    rep.finding(r5, rf.qualname, norm(c), 'unbounded-read',
                                 LS, c.lineno,
                                 'the length passed to rfile.read() is not '
                                 'proven >= 0 on this path (lower bound: %s): '
